@@ -340,8 +340,17 @@ def run_history(ctx, pool, gold, limit, hno, alts):
                                     % (step, name, g['refused'], attempt, hist[-8:]),
                                     dict(history=hist, step=step, message=name, op='decode', attempt=attempt))
                         break
-                    except Exception:
+                    except Exception as e:
                         ctx.count('refused_message_attempts')
+                        if type(e).__name__ != g['refused']:
+                            # refused, but for another reason than in a new interpreter (an unknown descriptor that has become
+                            # known and now fails on the data, ...): the outcome depends on the history all the same
+                            ctx.violate('history-dependence/refused-message-raises-%s-instead-of-%s/after-%s'
+                                        % (type(e).__name__, g['refused'], prev if attempt == 1 else 'its-own-refusal'),
+                                        'step %d: %s is refused with %s by a new interpreter but with %s (attempt %d) after history %s'
+                                        % (step, name, g['refused'], type(e).__name__, attempt, hist[-8:]),
+                                        dict(history=hist, step=step, message=name, op='decode', attempt=attempt))
+                            break
                 prev = 'failure'
                 prev_msg = None
                 continue
